@@ -266,23 +266,40 @@ pub(crate) fn decouple_v_models(
 }
 
 pub(crate) fn transform_text(text: &str) -> String {
-    let jsx_text_value = text.replace('\t', " ");
-    let mut jsx_text_lines = jsx_text_value.lines().enumerate().peekable();
-
+    // the standard JSX text rule, as implemented by Babel and the official plugin
     let mut lines = vec![];
-    while let Some((index, line)) = jsx_text_lines.next() {
-        let line = if index == 0 {
-            // first line
-            line.trim_end()
-        } else if jsx_text_lines.peek().is_none() {
-            // last line
-            line.trim_start()
-        } else {
-            line.trim()
-        };
+    let mut rest = text;
+    while let Some(index) = rest.find(['\r', '\n']) {
+        lines.push(&rest[..index]);
+        rest = &rest[index..];
+        rest = rest
+            .strip_prefix("\r\n")
+            .unwrap_or_else(|| &rest[1..]);
+    }
+    lines.push(rest);
+
+    let last_non_empty_line = lines
+        .iter()
+        .rposition(|line| line.contains(|c| c != ' ' && c != '\t'))
+        .unwrap_or(0);
+    let last_line = lines.len() - 1;
+
+    let mut result = String::with_capacity(text.len());
+    for (index, line) in lines.into_iter().enumerate() {
+        let line = line.replace('\t', " ");
+        let mut line = line.as_str();
+        if index != 0 {
+            line = line.trim_start_matches(' ');
+        }
+        if index != last_line {
+            line = line.trim_end_matches(' ');
+        }
         if !line.is_empty() {
-            lines.push(line);
+            result.push_str(line);
+            if index != last_non_empty_line {
+                result.push(' ');
+            }
         }
     }
-    lines.join(" ")
+    result
 }
